@@ -578,7 +578,7 @@ def sz_run(ck, cases):
             k = "/".join(x for x in (vv["comp"], vv["level"], vv["mode"]) if x)
             cov["writers"][k] = cov["writers"].get(k, 0) + 1
             cov["lazy_queries"] += len(vo["queries"])
-            if vv["comp"] == "zstd" and c["shape"] != "size-longline":
+            if vv["comp"] == "zstd" and out["plain_len"] > 131072:        # more than one zstd block
                 fk = "%s/%s" % (vv["level"], vv["mode"])
                 w = "single-segment" if vo.get("zstd_single_segment") else "window %d KiB" % (vo.get("zstd_window", 0) // 1024)
                 cov["zstd_frames"].setdefault(fk, [])
